@@ -105,6 +105,8 @@ def gen_bst(rng):
     if k == 0 and rng.random() < 0.3:
         # pointers far apart: 2^31, 2^32, 2^33 ... distances (default comparator)
         pool = [1 + (i << rng.choice([31, 32, 33, 40])) for i in range(6)] + [5, 6]
+        if rng.random() < 0.5:      # both halves of the address range: distances of 2^63 and more
+            pool += [0x1000, 0x6000000000000000, 0x8000000000000010, 0xC000000000000000, 0xFFFFFFFFFFFFFFF0, 0x7FFFFFFFFFFFFFFF]
     else:
         pool = list(range(1, 24))
     ops = []
